@@ -128,10 +128,10 @@ func (tamperEngine) Generate(prop string, r *simrt.RNG, tier string, run int) *s
 	}
 	var late []simrt.Op
 	for _, id := range order {
-		genuine := simrt.Op{K: "dlv", I: []int64{int64(id), int64(r.Intn(2)), int64(r.Intn(3)), 0, 0}}
+		genuine := simrt.Op{K: "dlv", I: []int64{int64(id), int64(r.Intn(3)), int64(r.Intn(3)), 0, 0}}
 		if r.Chance(2, 5) {
 			kind := r.Range(1, mutLast-1)
-			bad := simrt.Op{K: "dlv", I: []int64{int64(id), int64(r.Intn(2)), int64(r.Intn(3)), int64(kind), int64(r.Intn(1000))}}
+			bad := simrt.Op{K: "dlv", I: []int64{int64(id), int64(r.Intn(3)), int64(r.Intn(3)), int64(kind), int64(r.Intn(1000))}}
 			switch r.Intn(4) {
 			case 0, 1: // corrupted copy first, genuine right after
 				sc.Ops = append(sc.Ops, bad, genuine)
@@ -254,6 +254,32 @@ func (tamperEngine) run(ctx *simrt.Ctx) *simrt.Violation {
 					shape = "K2"
 				case (kind == mutTxHash || kind == mutStateHash) && parentConnected && !extendsTip && heavier:
 					shape = "K3"
+				}
+				if shape == "K1" && !open && int(op.Int(1)) == 2 && extendsTip && parentConnected {
+					// The fast-download path deletes a block that failed execution from
+					// the index again, so a same-header copy arriving that way at the
+					// tip must not stop the genuine block that follows immediately
+					// (later arrival is the recorded K1 shape: the stored body stays).
+					ctx.Probe("strict_download_copy_then_genuine")
+					beforeTip, beforeKeys := snapshot(sut)
+					Deliver(sut, bad, 2, "download")
+					afterTip, afterKeys := snapshot(sut)
+					if beforeTip != afterTip {
+						return ctx.Violate("invalid-block-changed-chain", "download/"+mutNames[kind], "a %s-corrupted copy of block id %d delivered through the fast-download path changed the best chain from %s to %s", mutNames[kind], b.ID, beforeTip, afterTip)
+					}
+					if fam, detail := diffKeyMaps(beforeKeys, afterKeys); fam != "" {
+						return ctx.Violate("invalid-block-changed-indexes", "download/"+mutNames[kind]+"/"+fam, "a %s-corrupted copy of block id %d delivered through the fast-download path changed the database: %s", mutNames[kind], b.ID, detail)
+					}
+					ok, msg := Deliver(sut, b.Block, 1, pid)
+					delivered[b.ID] = true
+					// (waiting orphans may have been connected on top of it)
+					if !isAncestorHash(sut, b.Hash, b.Height) {
+						return ctx.Violate("valid-block-not-accepted", "after-download-copy/"+mutNames[kind], "block id %d (height %d) extends the tip; a %s-corrupted copy with the same header came through the fast-download path and was rejected, then the genuine block arrived and was refused: ok=%v %q", b.ID, b.Height, mutNames[kind], ok, msg)
+					}
+					if v := served(b, "after-download-copy"); v != nil {
+						return v
+					}
+					continue
 				}
 				if shape != "" && !open {
 					ctx.Probe("strict_skipped_" + shape)
